@@ -263,7 +263,7 @@ def check_rm(ctx, drv):
                                                                 "manager after all torrents have stopped, so not reachable there; design observation)")
     # 2. the real manager
     ops = ctx.pick(10, 14)
-    plan = [("disc", ctx.pick(120, 1000)), ("pre", ctx.pick(8, 60)), ("during", ctx.pick(30, 300))]
+    plan = [("disc", ctx.pick(120, 600)), ("pre", ctx.pick(8, 40)), ("during", ctx.pick(30, 200))]
     alltraces = []
     for k, (mode, n) in enumerate(plan):
         out, crashes = run_driver(ctx, drv, "rm", mode, n, ops, k)
@@ -343,7 +343,7 @@ def check_cache(ctx, drv):
         ok, out = mc(ctx, "MC_LimitsCache", cfg, timeout=600, expect_ok=False)
         ctx.extra[key] = "no error" if ok else "violates " + ",".join(sorted(set(re.findall(r"Invariant (\w+) is violated", out))))
     # the real cache
-    plan = [("cache", ctx.pick(120, 1200), ctx.pick(14, 20)), ("cacheconc", ctx.pick(120, 1000), 0)]
+    plan = [("cache", ctx.pick(120, 800), ctx.pick(14, 20)), ("cacheconc", ctx.pick(120, 600), 0)]
     alltraces = []
     for k, (sub, n, ops) in enumerate(plan):
         out, crashes = run_driver(ctx, drv, sub, "", n, ops, 20 + k)
@@ -392,7 +392,7 @@ def addr_describe(t, pos, tag):
 def check_addr(ctx, drv):
     mc(ctx, "MC_LimitsAddr", "MC_LimitsAddr.cfg", timeout=600)
     mc(ctx, "MC_LimitsAddr", "MC_LimitsAddr_zero.cfg", timeout=600)
-    out, crashes = run_driver(ctx, drv, "addr", "", ctx.pick(200, 3000), ctx.pick(25, 40), 40)
+    out, crashes = run_driver(ctx, drv, "addr", "", ctx.pick(200, 2000), ctx.pick(25, 40), 40)
     traces = addr_prepare(read_traces(out))
     for t in traces:
         key = tuple((e["op"], e["src"], e["n"], e["has"], e["len"], tuple(e["cnt"])) for e in t)
@@ -435,8 +435,8 @@ def check_sem(ctx, drv):
         ctx.extra["sem_model_asis_len_gauge"] = ("within capacity" if ok else
                                                  "Len() can exceed the capacity for an instant in the model of Signal as it is (Release before "
                                                  "active--); never observed on the real code (see sem stress samples) - design observation, no verdict")
-    out1, _ = run_driver(ctx, drv, "sem", "", ctx.pick(40, 300), 6, 50)
-    out2, _ = run_driver(ctx, drv, "sem", "stress", ctx.pick(4, 16), ctx.pick(250, 1500), 51)
+    out1, _ = run_driver(ctx, drv, "sem", "", ctx.pick(40, 200), 6, 50)
+    out2, _ = run_driver(ctx, drv, "sem", "stress", ctx.pick(4, 12), ctx.pick(250, 1000), 51)
     traces = sem_prepare(read_traces(out1) + read_traces(out2))
     nsamples = 0
     for t in traces:
